@@ -173,6 +173,15 @@ let dispatch op r =
       pr_result (fun o -> pr_list pr_tok o.po_toks; pr_list pr_str o.po_unknowns;
                           pr_list pr_diag o.po_diags)
         (m_run_parse nosp files lang multi simple mods define latex extr fuel)
+  | "in_class" ->
+      let nosp = rd_bool r in
+      let files = rd_list r (fun r -> let n = rd_str r in let c = rd_str r in (n, c)) in
+      let lang = rd_str r in let multi = rd_bool r in let simple = rd_bool r in
+      let mods = rd_list r (fun r -> let c = rd_bool r in let n = rd_str r in (c, n)) in
+      let define = rd_str r in let latex = rd_str r in
+      let extr = rd_list r rd_str in let fuel = rd_nat r in
+      pr_result (fun b -> pi (if b then 1 else 0))
+        (m_in_class nosp files lang multi simple mods define latex extr fuel)
   | "tex2txt" ->
       let nosp = rd_bool r in
       let files = rd_list r (fun r -> let n = rd_str r in let c = rd_str r in (n, c)) in
